@@ -178,7 +178,9 @@ func (vm *VM) Run() error {
 			}
 			elements := make([]value, 0, len(left.Elements)*repetitions)
 			for range repetitions {
-				elements = append(elements, left.Elements...)
+				for _, e := range left.Elements {
+					elements = append(elements, copyValue(e))
+				}
 			}
 			err = vm.push(arrayVal{Elements: elements})
 		case OpMap:
